@@ -283,4 +283,12 @@ func c18Run(e *Env, keepalive bool) {
 	if n > 1 {
 		e.Violate("C18.R1", "closed-twice", "the monitor's on-inactive callback ran %d times", n)
 	}
+	// the keep-alive's pings are the only operations on this connection: at most the latest ping may still be waiting
+	// for its pong - every earlier one was answered, superseded (cancelled) or died with the connection
+	if keepalive && !closed() {
+		sz := w.TableSizes()
+		if out := sz["tokenHandlers"] + sz["midHandlers"]; out > 1 {
+			e.Violate("C18.R7", "ping-continuations-accumulate", "%d ping continuations are registered on the connection (token handlers %d, message-ID handlers %d) after %d pings; at most the current ping can be outstanding", out, sz["tokenHandlers"], sz["midHandlers"], len(pings))
+		}
+	}
 }
